@@ -377,6 +377,14 @@ pub fn plan<'a>(ctx: &'a Ctx, rng: &mut Rng, tier: Tier) -> Plan<'a> {
             cases.push(Case { tcs: vec!["ab".repeat(if quick { 200 } else { 1500 })], cfg: Cfg::new(0) });
             cases.push(Case { tcs: vec!["abcab".repeat(if quick { 20 } else { 60 })], cfg: Cfg::new(mask(&[BIT_REP])) });
             cases.extend(deep_nested(&[0, mask(&[BIT_VERB]), mask(&[BIT_ESC]), mask(&[BIT_ESC, BIT_SUR]), mask(&[BIT_CAP, BIT_CI]), mask(&[BIT_COLOR]), mask(&[BIT_NO_START, BIT_NO_END, BIT_VERB])]));
+            // thresholds at the ends of their type: every positive u32 is a legal threshold (arithmetic on it must not overflow)
+            for (mr, ml) in [(u32::MAX, 1u32), (u32::MAX - 1, 1), (1, u32::MAX), (u32::MAX, u32::MAX), (1 << 31, 2), (2, 1 << 31), (1000, 1000)] {
+                for t in [vec!["ab".to_string()], vec!["aaaaaa".to_string(), "xyzxyzxyz".to_string(), "b".to_string()], vec!["a".to_string()], vec!["1111".to_string(), "11".to_string()]] {
+                    for fl in [mask(&[BIT_REP]), mask(&[BIT_REP, BIT_DIGIT, BIT_NO_START, BIT_NO_END]), mask(&[BIT_REP, BIT_VERB]), 0u32] {
+                        cases.push(Case { tcs: t.clone(), cfg: Cfg { bits: fl, min_rep: mr, min_len: ml } });
+                    }
+                }
+            }
             Plan {
                 cases,
                 judge: Box::new(|c, b| judge::judge_valid(c, b)),
